@@ -165,6 +165,9 @@ pub fn run_program(cfg: &Cfg) {
   };
   hist::rec_new(fl.kind, cap, &[1], &[2], &cfg.flavour, &cfg.kf);
 
+  if cfg.profile == "parked" && st.rng.random_bool(0.5) {
+    cancelled_waiter_prologue(&mut st, cfg);
+  }
   for _ in 0..cfg.ops {
     step(&mut st, cfg);
     st.quiesce();
@@ -174,6 +177,94 @@ pub fn run_program(cfg: &Cfg) {
   }
   teardown(&mut st, cfg);
   hist::rec_end();
+}
+
+/// The classic test of a wake-one protocol: two operations wait on the same side (on two handles where
+/// the flavour allows clones), the one that registered first is cancelled, and then (in the random part
+/// that follows) one unit of progress becomes available - it must reach the waiter that is still there.
+fn cancelled_waiter_prologue(st: &mut St, cfg: &Cfg) {
+  let recv_side = cfg.seed % 4 < 2 || st.cap == 0;
+  let idx = if recv_side { 1 } else { 0 };
+  let (info_async, excl, can_clone) = match &st.hs[idx].hd {
+    Some(Hd::Tx(t)) => (t.info().is_async, t.info().fut_excl, t.info().clone),
+    Some(Hd::Rx(r)) => (r.info().is_async, r.info().fut_excl, r.info().clone),
+    None => return,
+  };
+  if !info_async || st.kind == "os" {
+    return;
+  }
+  if !recv_side {
+    // fill the buffer first so that sends have to wait
+    for _ in 0..st.cap {
+      let vs = st.toks(1);
+      let ids = hist::ids(&vs);
+      let hid = st.hs[0].id;
+      let o = new_op(st);
+      hist::rec_call(o, hid, "try_send", &ids, 0, false);
+      let out = match st.hs[0].hd.as_mut() {
+        Some(Hd::Tx(t)) => t.sync_op("try_send", vs),
+        _ => return,
+      };
+      hist::rec_ret(o, out.res, out.n, &out.vals, &out.back);
+      st.len += out.n;
+      st.after_drops();
+    }
+  }
+  // second handle of that side
+  let second = if can_clone {
+    let d = match &st.hs[idx].hd {
+      Some(Hd::Tx(t)) => t.dup().map(Hd::Tx),
+      Some(Hd::Rx(r)) => r.dup().map(Hd::Rx),
+      None => None,
+    };
+    match d {
+      Some(d) => {
+        st.next_h += 1;
+        let nh = st.next_h;
+        hist::rec_clone(st.hs[idx].id, nh);
+        st.hs.push(Handle { id: nh, hd: Some(d), closed: false, futs: 0, stream_op: None, consumed: false });
+        st.hs.len() - 1
+      }
+      None => idx,
+    }
+  } else {
+    idx
+  };
+  if second == idx && excl {
+    return;
+  }
+  let mut ops = vec![];
+  for &i in &[idx, second] {
+    let hid = st.hs[i].id;
+    let o = new_op(st);
+    let fut = if recv_side {
+      hist::rec_call(o, hid, "recv", &[], 1, true);
+      match st.hs[i].hd.as_mut() {
+        Some(Hd::Rx(r)) => r.start("recv", 1),
+        _ => return,
+      }
+    } else {
+      let vs = st.toks(1);
+      let ids = hist::ids(&vs);
+      hist::rec_call(o, hid, "send", &ids, 0, true);
+      match st.hs[i].hd.as_mut() {
+        Some(Hd::Tx(t)) => t.start("send", vs),
+        _ => return,
+      }
+    };
+    let wf = WakeFlag::new(o);
+    st.hs[i].futs += 1;
+    st.futs.push(PFut { o, h: i, fut, wf, is_send: !recv_side });
+    let k = st.futs.len() - 1;
+    poll_fut(st, k);
+    st.quiesce();
+    ops.push(o);
+  }
+  // the waiter that registered first goes away
+  if let Some(k) = st.futs.iter().position(|f| f.o == ops[0]) {
+    cancel_fut(st, k);
+    st.quiesce();
+  }
 }
 
 fn teardown(st: &mut St, cfg: &Cfg) {
